@@ -335,6 +335,7 @@ def run(P: Program, R: Report, tier: str) -> None:
     attr_truthiness(P, R, "R01.11")
     paint_flow_pixels(P, R, A, "R01.12")
     apply_keeps_inverse_inputs(P, R, "R01.13")
+    inverse_is_pure(P, R, "R01.14")
 
 
 ATTR_READS = ("get_edge_attr", "get_node_attr", "_get_edge_attr", "_get_node_attr", "get_nodes_attr", "get_edges_attr")
@@ -446,3 +447,26 @@ def apply_keeps_inverse_inputs(P: Program, R: Report, rule: str) -> None:
                 f"`{norm(bad[0])[:80]}` rewrites self.{bad[1]} while applying: the inverse is then built from something else than the edit that was requested "
                 "(after a paint stroke the array is already changed, so a value recomputed from it is empty and undo restores nothing)" if bad else "", via="def-use")
     R.floor(rule, "primitives with _apply and inverse", n, 5)
+
+
+def inverse_is_pure(P: Program, R: Report, rule: str) -> None:
+    """`inverse()` builds the inverse edit; it does not change the recorded action itself.  The history inverts the same
+    recorded object again on every later undo of that step (undo, redo, undo ...), so an inverse() that e.g. reverses
+    `self.actions` in place works once and replays the sub-edits in the wrong order the next time."""
+    from ..effects import Effects
+
+    E = Effects(P)
+    n = 0
+    classes = list(P.primitives()) + [c for c in P.subclasses("ActionGroup")] + ([P.class_named("ActionGroup")] if P.class_named("ActionGroup") else [])
+    seen = set()
+    for c in classes:
+        inv = c.methods.get("inverse")
+        if inv is None or inv.qname in seen:
+            continue
+        seen.add(inv.qname)
+        n += 1
+        eff = [(pa, k, w) for pa, k, w in E.effects_on(inv, "self") if not (pa and pa[0].startswith("tracks"))]
+        R.check(not eff, rule, inv, inv.node, f"{c.name}.inverse() leaves the recorded action as it is",
+                f"inverse() writes {[('.'.join(pa), k) for pa, k, w in eff][:3]} on the action itself (at {eff[0][2] if eff else ''}): the same recorded object is "
+                "inverted again by a later undo of the same step and then behaves differently", via="effects")
+    R.floor(rule, "inverse() methods", n, 6)
